@@ -81,6 +81,9 @@ func main() {
 					}
 					b.s.Close()
 				}
+				if w := wpOf(st); w != nil {
+					w.close()
+				}
 				runtime.GOMAXPROCS(runtime.NumCPU())
 				st = newState()
 				fmt.Fprintf(w, "%s\t-\n", line)
